@@ -59,3 +59,14 @@ func VerifXObjectState(e *Extractor) (bytes, depth, saved int) {
 func VerifXObjectLimits() (maxBytes, callCost, maxDepth int) {
 	return maxXObjectBytes, xobjectCallCost, NewExtractor().maxXObjectDepth
 }
+
+// VerifShownTexts returns the text of every fragment the last Extract /
+// ExtractFromBytes produced, in show order, before position-based
+// de-duplication (C07: what each show operator decoded to).
+func VerifShownTexts(e *Extractor) []string {
+	out := make([]string, len(e.fragments))
+	for i, f := range e.fragments {
+		out[i] = f.Text
+	}
+	return out
+}
